@@ -5,6 +5,7 @@ import (
 	"errors"
 	"fmt"
 	"io"
+	"os"
 	"runtime"
 	"strings"
 	"sync"
@@ -377,6 +378,8 @@ type rcfg struct {
 	// PreBuf-byte buffers (no further Read: the end of the stream is never asked for), then Reset(source)
 	PreBytes int `json:"preBytes,omitempty"`
 	PreBuf   int `json:"preBuf,omitempty"`
+	// PreFile: the earlier life reads this other stream to its end (io.Copy) before Reset(source)
+	PreFile string `json:"preFile,omitempty"`
 }
 
 type robs struct {
@@ -470,6 +473,14 @@ func runReaderDelay(data []byte, cfg rcfg, watchdog time.Duration, outLimit int,
 		if cfg.PreBytes > 0 {
 			first = &fragReader{data: data, pattern: cfg.Frag}
 		}
+		if cfg.PreFile != "" {
+			other, err := os.ReadFile(cfg.PreFile)
+			if err != nil {
+				o.Outcome, o.Err, o.ErrText = "error", "other", "verif: "+err.Error()
+				return
+			}
+			first = &fragReader{data: other}
+		}
 		zr := lz4.NewReader(first)
 		if cfg.Conc != 1 {
 			c := cfg.Conc
@@ -480,6 +491,10 @@ func runReaderDelay(data []byte, cfg rcfg, watchdog time.Duration, outLimit int,
 				o.Outcome, o.Err = "error", classify(err)
 				return
 			}
+		}
+		if cfg.PreFile != "" {
+			_, _ = io.Copy(io.Discard, zr)
+			zr.Reset(src)
 		}
 		if cfg.PreBytes > 0 {
 			pb := cfg.PreBuf
